@@ -168,7 +168,9 @@ class Ghost(F.Hooks):
                 l, r = r, l
                 op = {ast.Lt: ast.Gt, ast.Gt: ast.Lt, ast.LtE: ast.GtE, ast.GtE: ast.LtE}.get(op, op)
             if is_len(l):
-                if mx is not None and r == mx and op in (ast.Eq, ast.GtE):
+                if mx is not None and mx == mn and r == mx and op is ast.GtE:
+                    kind = 'both'       # an exact count: one comparison serves as upper and as lower bound test
+                elif mx is not None and r == mx and op in (ast.Eq, ast.GtE):
                     kind = 'max'
                 elif mn is not None and r == mn and op is ast.GtE:
                     kind = 'min'
@@ -177,7 +179,12 @@ class Ghost(F.Hooks):
                     kind = 'min'
         elif isinstance(t, ast.Name) and mn == ('CONST', '1') and t.id in s.emp:
             kind = 'min'
-        if kind == 'max':
+        if kind == 'both':
+            trues = [self._set(x, {'#atmax': True, '#minok': True}, ['#pend']) for x in trues]
+            # the comparison was already true (the loop stopped at the bound) and nothing was appended
+            # since: it cannot be false now
+            falses = [self._set(x, {}, ['#pend']) for x in falses if not x.bl.get('#atmax')]
+        elif kind == 'max':
             trues = [self._set(x, {'#atmax': True}, ['#pend']) for x in trues]
             falses = [self._set(x, {}, ['#pend']) for x in falses]
         elif kind == 'min':
